@@ -104,8 +104,11 @@ def run(prog: Program, res: Result) -> None:
     from .c11 import check_get_pool_results
     gp = prog.func(f"{PKG}.helpers.get_pool_results")
     okg, whyg = check_get_pool_results(prog)
-    res.ob(okg, f"{gp.loc()} get_pool_results: one result per future, unfiltered", "get_pool_results")
-    if not okg:
+    if okg is None:
+        res.errors.append(f"{gp.loc()} get_pool_results: {whyg} (undecided)")
+    else:
+        res.ob(okg, f"{gp.loc()} get_pool_results: one result per future, unfiltered", "get_pool_results")
+    if okg is False:
         res.add(Finding(P, "C10.R1-pool-hand-off", "helpers.get_pool_results::loop", gp.loc(),
                         f"get_pool_results: {whyg}: pooled generations lose or duplicate agents"))
     # sort_and_trim keeps FIRST(k)
